@@ -75,6 +75,7 @@ type ctxKey int
 const (
 	tidKey ctxKey = iota
 	genKey
+	schedKey
 )
 
 type thr struct {
@@ -115,6 +116,7 @@ type note struct {
 	intent any
 	finish bool
 	gen    int
+	wch    chan int // worker notes: the channel this store call waits on (a second call in flight has its own)
 }
 
 type Choice struct {
@@ -139,6 +141,8 @@ type Sched struct {
 	workerParked bool
 	workerBatch  []*ledger.ChainedLog
 	workerResume chan int
+	inFlight     map[int]int // per generation: store calls entered and not yet returned
+	Overtakes    int // store calls that entered while another was in flight and were let through first
 	pending      int
 	granted      map[any]bool
 
@@ -154,6 +158,9 @@ type Sched struct {
 	AllowReadFail bool // enable read_fail(t): the next store read of request t fails (at most MaxReadFails times)
 	ReadFails    int
 	MaxReadFails int
+	closedCh  chan struct{}
+	closeOnce sync.Once
+	gens      []genRef // every commander generation booted, to stop its job runner at Close
 	ReadFail  map[string]bool // kinds of store read that fail with a transient error (see Store.ReadFail)
 	Crashes   int
 	MaxCrashes int
@@ -161,11 +168,21 @@ type Sched struct {
 	MaxCancels int
 }
 
+type genRef struct {
+	cmd    *command.Commander
+	exited chan struct{}
+}
+
 var installOnce sync.Once
 var current *Sched
 var currentMu sync.Mutex
 
 func handler(ctx context.Context, point string, kv ...any) {
+	// a request belongs to the scheduler that started it (released goroutines of a closed execution still run)
+	if own, ok := ctx.Value(schedKey).(*Sched); ok {
+		own.yield(ctx, point, kv...)
+		return
+	}
 	currentMu.Lock()
 	s := current
 	currentMu.Unlock()
@@ -282,6 +299,11 @@ func (s *Sched) yield(ctx context.Context, point string, kv ...any) {
 	if !ok {
 		return
 	}
+	select {
+	case <-s.closedCh: // the execution is over: its goroutines run to their end unobserved (nothing they do is recorded)
+		return
+	default:
+	}
 	gen, _ := ctx.Value(genKey).(int)
 	m, intent := kvMap(kv)
 	if point == "lock.grant" {
@@ -309,8 +331,15 @@ func (s *Sched) yield(ctx context.Context, point string, kv ...any) {
 			return
 		}
 	}
-	s.notes <- note{tid: tid, point: point, kv: m, intent: intent, gen: gen}
-	<-t.resume
+	select {
+	case s.notes <- note{tid: tid, point: point, kv: m, intent: intent, gen: gen}:
+	case <-s.closedCh:
+		return
+	}
+	select {
+	case <-t.resume:
+	case <-s.closedCh:
+	}
 }
 
 // note records a non-parking observation in the trace (store reads).
@@ -335,9 +364,30 @@ func (s *Sched) workerArrive(gen int, logs []*ledger.ChainedLog) int {
 	}
 	s.mu.Lock()
 	ch := s.workerResume
+	if s.inFlight == nil {
+		s.inFlight = map[int]int{}
+	}
+	s.inFlight[gen]++
+	if s.inFlight[gen] > 1 {
+		ch = make(chan int) // a store call entered while another has not returned: it gets its own channel
+	}
 	s.mu.Unlock()
-	s.notes <- note{tid: -1, point: "store.insert", kv: map[string]string{"ids": ids, "n": fmt.Sprint(len(logs))}, gen: gen, intent: logs}
-	return <-ch
+	defer func() {
+		s.mu.Lock()
+		s.inFlight[gen]--
+		s.mu.Unlock()
+	}()
+	select {
+	case s.notes <- note{tid: -1, point: "store.insert", kv: map[string]string{"ids": ids, "n": fmt.Sprint(len(logs))}, gen: gen, intent: logs, wch: ch}:
+	case <-s.closedCh:
+		return -1
+	}
+	select {
+	case v := <-ch:
+		return v
+	case <-s.closedCh:
+		return -1 // the execution is over: report success without writing, so that waiting requests can end
+	}
 }
 
 // ---- monitor -------------------------------------------------------------------------------------------
@@ -370,7 +420,7 @@ func (m monitor) DeletedMetadata(ctx context.Context, targetType string, targetI
 
 func New(disk *Disk, reqs []Req) *Sched {
 	installOnce.Do(func() { verifhook.SetHandler(handler) })
-	s := &Sched{notes: make(chan note, 64), Disk: disk, granted: map[any]bool{}, MaxCrashes: 1, MaxCancels: 1, MaxReadFails: 1}
+	s := &Sched{closedCh: make(chan struct{}), notes: make(chan note, 64), Disk: disk, granted: map[any]bool{}, MaxCrashes: 1, MaxCancels: 1, MaxReadFails: 1}
 	for i, r := range reqs {
 		s.threads = append(s.threads, &thr{id: i, req: r, resume: make(chan struct{})})
 	}
@@ -405,7 +455,10 @@ func (s *Sched) boot() {
 	ctx, cancel := context.WithCancel(context.Background())
 	s.cancel = cancel
 	s.cmd = c
+	exited := make(chan struct{})
+	s.gens = append(s.gens, genRef{c, exited})
 	go func() {
+		defer close(exited)
 		defer func() { _ = recover() }() // Run re-panics when the store fails: the process "dies"
 		c.Run(ctx)
 	}()
@@ -676,6 +729,20 @@ func (s *Sched) absorb(n note, waitingThread *bool, expectTid int) {
 	}
 	s.record(n)
 	if n.tid == -1 {
+		if s.workerParked {
+			// a second store call while the first is still in flight (the unchanged engine has one insert worker):
+			// nothing orders the two writes. Let the later one land first: the disk then shows it.
+			batch := n.intent.([]*ledger.ChainedLog)
+			s.pending -= len(batch)
+			s.Trace = append(s.Trace, Event{Tid: -1, Point: "store.insert.overtakes", KV: n.kv})
+			s.Overtakes++
+			n.wch <- 1
+			deadline := time.Now().Add(2 * time.Second)
+			for len(batch) > 0 && !s.persisted(batch[len(batch)-1].ID.String()) && time.Now().Before(deadline) {
+				time.Sleep(20 * time.Microsecond)
+			}
+			return
+		}
 		s.workerParked = true
 		s.workerBatch = n.intent.([]*ledger.ChainedLog)
 		s.pending -= len(s.workerBatch)
@@ -725,13 +792,16 @@ func (s *Sched) do(c Choice) Choice {
 		t.started, t.gen = true, s.Gen
 		base, cancel := context.WithCancel(context.Background())
 		t.cancel = cancel
-		ctx := context.WithValue(context.WithValue(base, tidKey, t.id), genKey, s.Gen)
+		ctx := context.WithValue(context.WithValue(context.WithValue(base, tidKey, t.id), genKey, s.Gen), schedKey, s)
 		cmd, gen := s.cmd, s.Gen
 		go func() {
 			resp := s.call(ctx, cmd, t.req)
 			t.resp = resp
-			s.notes <- note{tid: t.id, point: "return", finish: true, gen: gen,
-				kv: map[string]string{"ok": fmt.Sprint(resp.OK), "err": resp.Err, "txid": resp.TxID, "panic": resp.Panic, "persisted": fmt.Sprint(resp.Persisted)}}
+			select {
+			case s.notes <- note{tid: t.id, point: "return", finish: true, gen: gen,
+				kv: map[string]string{"ok": fmt.Sprint(resp.OK), "err": resp.Err, "txid": resp.TxID, "panic": resp.Panic, "persisted": fmt.Sprint(resp.Persisted)}}:
+			case <-s.closedCh:
+			}
 		}()
 		s.settle(t.id)
 	case "resume":
@@ -870,7 +940,30 @@ func (s *Sched) Responses() []Response {
 }
 func (s *Sched) Threads() int { return len(s.threads) }
 func (s *Sched) Close() {
+	s.closeOnce.Do(func() { close(s.closedCh) }) // releases every goroutine parked by this scheduler, of every generation
 	s.cancel()
+	// the job runner of a commander ignores its context: it only ends through Close (or by dying of a store failure).
+	// A runner left alive keeps its commander, store and log alive for the rest of the process.
+	for _, g := range s.gens {
+		select {
+		case <-g.exited:
+		default:
+			go func(g genRef) {
+				defer func() { _ = recover() }()
+				closed := make(chan struct{})
+				go func() {
+					defer func() { _ = recover() }()
+					defer close(closed)
+					g.cmd.Close()
+				}()
+				select {
+				case <-closed:
+				case <-g.exited: // died meanwhile: nobody will take the stop request; the inner goroutine stays (rare)
+				}
+			}(g)
+		}
+	}
+	s.gens = nil
 	currentMu.Lock()
 	if current == s {
 		current = nil
